@@ -188,6 +188,7 @@ def run_check(check, tier, seed, triage=False, jobs=None, limit=None):
 
     ctx = mp.get_context("fork")
     pool = ctx.Pool(jobs, initializer=_init_worker, initargs=(check,))
+    worker_pids = set()
     try:
         it = pool.imap(_run_case, (cases[i] for i in order), chunksize=check.chunksize)
         for k, res in enumerate(it):
@@ -219,8 +220,16 @@ def run_check(check, tier, seed, triage=False, jobs=None, limit=None):
                 capped = True
                 break
     finally:
+        worker_pids.update(p.pid for p in getattr(pool, "_pool", []))
         pool.terminate()
         pool.join()
+        # terminated workers never run their atexit handlers: sweep their scratch directories
+        import re as _re
+        import shutil as _sh
+        for name in os.listdir(SCRATCH):
+            m = _re.match(r"mc_[A-Za-z0-9]+_(\d+)_", name)
+            if m and int(m.group(1)) in worker_pids:
+                _sh.rmtree(os.path.join(SCRATCH, name), ignore_errors=True)
 
     if harness:
         print("HARNESS error in %s (%d cases):" % (pid, len(harness)))
